@@ -31,7 +31,7 @@ def bounds(tier):
             "thresh": [0.02, 0.05, 0.5], "crop": [0, 0.8, 0.95, 1.1], "data": ["gaussian seeds 0..3" if tier == "quick" else "gaussian seeds 0..7", "birdcage x ones", "birdcage x bump", "birdcage with one zero coil (first / last)"],
             "max_iter": [30, 100], "dtype": ["complex64", "complex128"],
             "mixed pad/crop": "8 non-square shapes whose calibration width lies between the two axis lengths (4 with calib**2 == voxels)",
-            "singleton axes": "6 shapes with one image axis of length one",
+            "3-D recovery": "3 volumes (12^3, 10x12x14) with calib_width 8-10 <= every axis", "singleton axes": "6 shapes with one image axis of length one",
             "locality": "13 (shape, calib) pairs with k-space outside the centred calibration block replaced: maps must not change"}
 
 
@@ -106,6 +106,12 @@ def gen_cases(tier, seed):
             for data in ("g0", "ones"):
                 for crop in (0, 0.3, 0.8):
                     cases.append(dict(kind="espirit", shape=sh, nc=nc, calib=cw, kernel=kw, thresh=0.02, crop=crop, data=data, dtype="c128", max_iter=30))
+    # 3-D volumes whose calibration block is genuinely filled (calib_width <= every image axis): the recovery clause in 3-D
+    for sh, cw, kw in (([12, 12, 12], 10, 3), ([12, 12, 12], 8, 3), ([10, 12, 14], 9, 3)):
+        for data in ("ones", "bump"):
+            for crop in (0.8, 0.95):
+                cases.append(dict(kind="espirit", shape=sh, nc=4, calib=cw, kernel=kw, thresh=0.02, crop=crop, data=data, dtype="c128",
+                                  max_iter=30, rec3d=True))
     # threshold ties: crop set EXACTLY to the eigenvalue of one voxel (taken from a first run with crop=0);
     # "zero where the eigenvalue does not exceed the crop threshold" => that voxel must be zero
     for sh in ([8, 8], [9, 10]):
@@ -219,7 +225,7 @@ def run_case(case, seed):
         # recovery
         # (a kernel of width 1 or 2 yields maps that are constant / linear across the field of view by construction, so the
         #  recovery clause - smooth but varying maps - is only meaningful from kernel_width 3 on)
-        if true is not None and nc >= 4 and len(sh) == 2 and case["calib"] <= min(sh) and 0 < crop < 1 and case["kernel"] >= 3:
+        if true is not None and nc >= 4 and (len(sh) == 2 or case.get("rec3d")) and case["calib"] <= min(sh) and 0 < crop < 1 and case["kernel"] >= 3:
             rows = (case["calib"] - case["kernel"] + 1) ** len(sh)
             cols = nc * case["kernel"] ** len(sh)
             if rows >= 1.5 * cols:
